@@ -14,6 +14,7 @@
 #include <xercesc/dom/DOMRangeException.hpp>
 #include <xercesc/dom/DOMDocumentTraversal.hpp>
 #include <xercesc/dom/DOMDocumentRange.hpp>
+#include <xercesc/dom/DOMDocumentFragment.hpp>
 #include <xercesc/parsers/XercesDOMParser.hpp>
 #include <xercesc/framework/MemBufInputSource.hpp>
 #include <map>
@@ -89,6 +90,30 @@ struct Hist {
         if (r->getStartOffset() > lengthOf(sc) || r->getEndOffset() > lengthOf(ec)) return false;
         std::vector<size_t> a = pathOf(sc, r->getStartOffset()), b = pathOf(ec, r->getEndOffset());
         return !(b < a);                     // lexicographic: start not after end
+    }
+    // ---- a DocumentFragment in the notation of the model: kind, #id of a moved document node or * for a new node,
+    //      value, children
+    std::string showFrag(const DOMNode* n) {
+        std::string s;
+        switch (n->getNodeType()) {
+        case DOMNode::ELEMENT_NODE: s = "e"; break;
+        case DOMNode::TEXT_NODE: s = "t"; break;
+        case DOMNode::COMMENT_NODE: s = "c"; break;
+        case DOMNode::DOCUMENT_NODE: s = "d"; break;
+        default: s = "?"; break;
+        }
+        auto it = idOf.find(n);
+        s += (it == idOf.end()) ? std::string("*") : "#" + std::to_string(it->second);
+        std::string v = narrow(n->getNodeType() == DOMNode::ELEMENT_NODE ? n->getNodeName() : n->getNodeValue());
+        s += "=" + (v.empty() ? std::string("-") : v) + "(";
+        for (DOMNode* c = n->getFirstChild(); c; c = c->getNextSibling()) s += showFrag(c);
+        return s + ")";
+    }
+    void movedTops(DOMNode* n, std::vector<DOMNode*>& out) {
+        for (DOMNode* c = n->getFirstChild(); c; c = c->getNextSibling()) {
+            if (idOf.find(c) != idOf.end()) out.push_back(c);      // a moved node: its subtree is all moved nodes
+            else movedTops(c, out);
+        }
     }
     std::string dumpRanges() {
         if (rgs.empty()) return "";
@@ -225,7 +250,7 @@ static std::string doOp(Hist& h, const std::string& tok) {
         if (op == "rg") { h.rgs.push_back(h.doc->createRange()); return "R" + std::to_string(h.rgs.size() - 1); }
         if (op[0] == 'r') {
             long k = I(1);
-            if (k < 0 || k >= (long)h.rgs.size() || !h.rgs[k]) return "guard";
+            if (k < 0 || k >= (long)h.rgs.size() || !h.rgs[k]) { if (op == "rinsn") h.nodes.push_back(0); return "guard"; }
             DOMRange* r = h.rgs[k];
             if (op == "rd") { r->detach(); h.rgs[k] = 0; return "ok"; }
             if (op == "rc") { r->collapse(I(2) != 0); return "ok"; }
@@ -233,6 +258,38 @@ static std::string doOp(Hist& h, const std::string& tok) {
                 long k2 = I(3);
                 if (k2 < 0 || k2 >= (long)h.rgs.size() || !h.rgs[k2]) return "guard";
                 return "c" + std::to_string((int)r->compareBoundaryPoints((DOMRange::CompareHow)I(2), h.rgs[k2]));
+            }
+            if (op == "rstr") { std::string t = narrow(r->toString()); return "s=" + (t.empty() ? std::string("-") : t); }
+            if (op == "rdel") { r->deleteContents(); return "ok"; }
+            if (op == "rclone" || op == "rext") {
+                DOMDocumentFragment* fr = (op == "rclone") ? r->cloneContents() : r->extractContents();
+                std::string out = "f=";
+                if (!fr || !fr->getFirstChild()) out += "-";
+                else for (DOMNode* c = fr->getFirstChild(); c; c = c->getNextSibling()) out += h.showFrag(c);
+                if (fr && op == "rext") {
+                    // dissolve the fragment: every moved document node whose parent is a new node (the fragment or a
+                    // clone) is detached again, in document order -- the history language has no ids for new nodes
+                    std::vector<DOMNode*> tops;
+                    h.movedTops(fr, tops);
+                    for (DOMNode* t : tops) t->getParentNode()->removeChild(t);
+                }
+                return out;
+            }
+            if (op == "rinsn") {
+                // every insertNode uses up exactly one node id: the node created by the split, or a burnt one
+                DOMNode* n = h.node(A(2));
+                DOMNode* sc = r->getStartContainer();
+                bool cd = sc && (sc->getNodeType() == DOMNode::TEXT_NODE || sc->getNodeType() == DOMNode::COMMENT_NODE);
+                DOMNode* par = cd ? sc->getParentNode() : sc;
+                if (!par || !n || n == h.doc || n == h.nodes[1] || par == h.doc || par == n) { h.nodes.push_back(0); return "guard"; }
+                std::string res = "ok";
+                try { r->insertNode(n); }
+                catch (const DOMRangeException& e) { res = "rerr" + std::to_string((int)e.code); }
+                catch (const DOMException& e) { res = "err" + std::to_string((int)e.code); }
+                DOMNode* created = 0;
+                for (DOMNode* c = par->getFirstChild(); c; c = c->getNextSibling()) if (h.idOf.find(c) == h.idOf.end()) created = c;
+                if (created) res += "+n" + std::to_string(h.reg(created)); else h.nodes.push_back(0);
+                return res;
             }
             DOMNode* x = h.node(A(2));
             if (!x || !h.inTree(x)) return "guard";
